@@ -164,7 +164,26 @@ EXTRA_TEXT2 = {
  'C18': 'A reach sweep runs all subsets of GLOBSTAR / GLOBSTARLONG / FOLLOW / MATCHBASE / DOTGLOB / NODIR over fixed patterns; a WcMatch sweep uses empty, missing and exclusion-only patterns on trees with newline names.',
  'C19': 'Every descriptor is also answered alone in a forked child of a fresh interpreter; lists returned by translate() are changed by the caller; after a call refused for the pattern limit the same text must be answered as in a fresh interpreter.',
 }
+EXTRA_TEXT3 = {
+ 'C01': 'In name mode a pattern with its slashes written escaped is answered like the plain spelling; the bracket table covers a caret after a dropped reversed range.',
+ 'C02': 'Slash-less MATCHBASE patterns are asked in turn under POSIX and Windows rules in one process, against explicit expectations.',
+ 'C03': 'The file-system stream also judges the positive side (every hidden entry the reference walk must return is returned) and names the hidden links of its tree outright after each kind of globstar; the dot-spelling table includes extended groups.',
+ 'C04': 'A raw-text shard compares glob() and globmatch(REALPATH) on pattern texts the AST cannot spell (groups and brackets that never close, around separators); the literal sweep writes its globstar variants as `***` under GLOBSTARLONG; catalogue tree 16 has links that cannot be resolved.',
+ 'C06': 'Pickled and deep-copied compiled matchers must filter the candidates through symlinked directories like the original.',
+ 'C08': 'A third of the grid also runs as bytes lists / tuples; every regex translate() returns must have the type of the patterns.',
+ 'C09': 'is_magic() of a text and of its escaped form answers the same for bytes, and the same with FORCEWIN|FORCEUNIX as with neither.',
+ 'C11': 'filter / globfilter are also entered with nothing to filter (empty list, tuple, iterator).',
+ 'C12': 'Roots are also given as objects that only have __fspath__ (str, bytes), as os.DirEntry, and as descriptor 0 with the working directory elsewhere; an exception for one way of giving the root counts as a difference.',
+ 'C13': 'Single literal patterns are swept against exclusions that only match the directory spelling, through every way of delivering an exclusion (exclude=, inline last, inline first, empty exclude=).',
+ 'C14': 'Trees with newline / trailing-backslash names are run with empty and catch-all patterns.',
+ 'C15': 'Every file an independent walk (the oracle of C14) visits must go to exactly one of on_match / on_skip; one configuration has a file pattern whose expansions are all empty.',
+ 'C17': 'Separators are also written as mixed runs of escaped backslashes and slashes, also directly after `!(...)` groups.',
+ 'C18': 'is_magic / escape are compared between bytes and str over drive and UNC spellings; absolute names are filtered against `/**/...` patterns under REALPATH.',
+ 'C19': 'A lazy iglob(dir_fd=...) that is partly consumed must leave descriptors the caller opens in the meantime alone.',
+}
 for _k, _v in EXTRA_TEXT.items():
     CHECKS[_k]['text'] = CHECKS[_k]['text'].rstrip() + ' ' + _v
+for _k, _v in EXTRA_TEXT3.items():
+    EXTRA_TEXT2[_k] = (EXTRA_TEXT2.get(_k, '') + ' ' + _v).strip()
 for _k, _v in EXTRA_TEXT2.items():
     CHECKS[_k]['text'] = CHECKS[_k]['text'].rstrip() + ' ' + _v
